@@ -634,6 +634,17 @@ func (env *SpecEnv) call(x ECall) SpecVal {
 		}
 		_, unbox := g.boxFns(tsort)
 		return SpecVal{"(" + unbox + " (if.ref " + v.T + "))", tsort, gt}
+	case "goquo", "gorem":
+		a, b := env.tr(x.Args[0]), env.tr(x.Args[1])
+		if !g.so.done["symdiv"] {
+			g.so.done["symdiv"] = true
+			g.specDecls = append(g.specDecls, "(declare-fun go.quo (Int Int) Int)", "(declare-fun go.rem (Int Int) Int)")
+		}
+		fn := "go.quo"
+		if x.Fn == "gorem" {
+			fn = "go.rem"
+		}
+		return SpecVal{"(" + fn + " " + a.T + " " + b.T + ")", "Int", nil}
 	case "typeof":
 		v := env.tr(x.Args[0])
 		if v.Sort != "Iface" {
